@@ -8,19 +8,30 @@ terminating `)` ws `;` and collect exactly the `#n` tokens — whatever strings 
 namespace StepModel.Lazy
 open StepModel.Generated
 
-/-- a character of a string literal's body: an ordinary character, or an apostrophe (written doubled) -/
+/-- an item of a string literal's body: an ordinary byte (anything but an apostrophe — backslashes and whole control
+    directives `\\X\\hh`, `\\P.\\`, `\\X2\\..\\X0\\`, `\\\\` are sequences of these), an apostrophe (written doubled), or the
+    directive `\\S\\` followed by an apostrophe (the one place where a single apostrophe stands inside a string) -/
 inductive SChar
   | plain (c : Char)
   | quote
+  | sect
   deriving Repr, DecidableEq
-
-def SChar.ok : SChar → Bool
-  | .plain c => c != '\'' && c != '\\'
-  | .quote => true
 
 def SChar.render : SChar → Bytes
   | .plain c => [c]
   | .quote => ['\'', '\'']
+  | .sect => ['\\', 'S', '\\', '\'']
+
+/-- well-formedness of a body, read with `acc` = the bytes of the literal so far (newest first): plain bytes are not
+    apostrophes, and neither an apostrophe pair nor the closing apostrophe directly follows the three bytes `\\S\\`
+    (there `GetLiteralStr`'s rule — and the grammar — read the apostrophe as the directive's character) -/
+def strOkAux : Bytes → List SChar → Bool
+  | acc, [] => !endsSBS acc
+  | acc, .plain c :: t => c != '\'' && strOkAux (c :: acc) t
+  | acc, .quote :: t => !endsSBS acc && strOkAux ('\'' :: '\'' :: acc) t
+  | acc, .sect :: t => strOkAux ('\'' :: '\\' :: 'S' :: '\\' :: acc) t
+
+def strOk (b : List SChar) : Bool := strOkAux ['\''] b
 
 def renderStr (b : List SChar) : Bytes := b.flatMap SChar.render
 
@@ -48,7 +59,7 @@ def renderToks (ts : List Tok) : Bytes := ts.flatMap Tok.render
 /-- token-local well-formedness -/
 def Tok.ok : Tok → Bool
   | .ref ds => !ds.isEmpty && ds.all isDigit && digitsVal ds ≤ instanceIdMax
-  | .str b => b.all SChar.ok
+  | .str b => strOk b
   | .cmt b => b.all cmtCharOk
   | .popen => true
   | .pclose => true
@@ -83,22 +94,14 @@ def refsOfToks : List Tok → List Nat
 
 /-! ### strings -/
 
-theorem endsSBS_false : ∀ acc : Bytes, acc.head? ≠ some '\\' → endsSBS acc = false
-  | [], _ => rfl
-  | c :: t, h => by
-    have hc : c ≠ '\\' := by simpa using h
-    unfold endsSBS; split
-    · rename_i heq; injection heq with h1 _; exact absurd h1 hc
-    · rfl
-
-theorem strLoop_body (b : List SChar) (hb : b.all SChar.ok = true) (rest : Bytes)
-    (hr : rest.head? ≠ some '\'') :
-    ∀ acc : Bytes, acc.head? ≠ some '\\' → acc ≠ [] →
+theorem strLoop_body (rest : Bytes) (hr : rest.head? ≠ some '\'') :
+    ∀ (b : List SChar) (acc : Bytes), strOkAux acc b = true →
       strLoop acc true (renderStr b ++ '\'' :: rest) = rest := by
+  intro b
   induction b with
   | nil =>
-    intro acc ha hne
-    have hs : endsSBS acc = false := endsSBS_false acc ha
+    intro acc hb
+    have hs : endsSBS acc = false := by simpa [strOkAux] using hb
     simp only [renderStr, List.flatMap_nil, List.nil_append, strLoop, hs]
     cases rest with
     | nil => simp [strLoop]
@@ -107,29 +110,39 @@ theorem strLoop_body (b : List SChar) (hb : b.all SChar.ok = true) (rest : Bytes
         simp at hr; simp; exact hr
       simp [strLoop, this]
   | cons s t ih =>
-    intro acc ha hne
-    simp only [List.all_cons, Bool.and_eq_true] at hb
-    have hs : endsSBS acc = false := endsSBS_false acc ha
+    intro acc hb
     cases s with
     | plain c =>
-      have hc := hb.1
-      simp only [SChar.ok, Bool.and_eq_true, bne_iff_ne, ne_eq] at hc
-      have h1 : (c == '\'') = false := by simp; exact hc.1
+      simp only [strOkAux, Bool.and_eq_true, bne_iff_ne, ne_eq] at hb
+      have h1 : (c == '\'') = false := by simp; exact hb.1
       simp only [renderStr, List.flatMap_cons, SChar.render, List.cons_append, List.nil_append, strLoop, h1]
       simp only [Bool.false_eq_true, ↓reduceIte, Bool.not_true]
-      exact ih hb.2 (c :: acc) (by simp; exact hc.2) (by simp)
+      exact ih (c :: acc) hb.2
     | quote =>
+      simp only [strOkAux, Bool.and_eq_true, Bool.not_eq_true'] at hb
+      have hs := hb.1
       simp only [renderStr, List.flatMap_cons, SChar.render, List.cons_append, List.nil_append, strLoop, hs]
       simp only [beq_self_eq_true, ↓reduceIte, Bool.false_eq_true, Bool.not_true]
-      have hs2 : endsSBS ('\'' :: acc) = false := endsSBS_false _ (by simp)
+      have hs2 : endsSBS ('\'' :: acc) = false := by
+        unfold endsSBS; split
+        · rename_i heq; injection heq with h1 _; exact absurd h1 (by decide)
+        · rfl
       simp only [hs2, Bool.false_eq_true, ↓reduceIte, Bool.not_false]
-      exact ih hb.2 ('\'' :: '\'' :: acc) (by simp) (by simp)
+      exact ih ('\'' :: '\'' :: acc) hb.2
+    | sect =>
+      simp only [strOkAux] at hb
+      have e1 : ('\\' == '\'') = false := by decide
+      have e2 : ('S' == '\'') = false := by decide
+      have hs3 : endsSBS ('\\' :: 'S' :: '\\' :: acc) = true := rfl
+      simp only [renderStr, List.flatMap_cons, SChar.render, List.cons_append, List.nil_append, strLoop, e1, e2, hs3,
+        beq_self_eq_true, Bool.false_eq_true, ↓reduceIte, Bool.not_true]
+      exact ih ('\'' :: '\\' :: 'S' :: '\\' :: acc) hb
 
-theorem strRest_render (b : List SChar) (hb : b.all SChar.ok = true) (rest : Bytes)
+theorem strRest_render (b : List SChar) (hb : strOk b = true) (rest : Bytes)
     (hr : rest.head? ≠ some '\'') :
     strRest ('\'' :: (renderStr b ++ '\'' :: rest)) = rest := by
   unfold strRest
-  exact strLoop_body b hb rest hr ['\''] (by simp) (by simp)
+  exact strLoop_body rest hr b ['\''] hb
 
 /-! ### comments -/
 
